@@ -9,6 +9,7 @@ import (
 	"testing"
 	"time"
 
+	jose "github.com/go-jose/go-jose/v4"
 	"github.com/gorilla/securecookie"
 	"github.com/zitadel/oidc/v3/pkg/oidc"
 	"golang.org/x/oauth2"
@@ -29,6 +30,7 @@ type attempt struct {
 	callback  string // the callback URL the OP produced (code + state)
 	startedAt time.Time
 	delivered int
+	subject   string // the user who logged in at the provider in this attempt
 }
 
 type c17 struct {
@@ -41,7 +43,10 @@ type c17 struct {
 	attempts []*attempt
 	maxAge   int
 	n        int
+	client   string // the client this RP acts for ("web", or "jwt" with JWT-profile client authentication)
 }
+
+func (c *c17) host() string { return c.client + ".sim" }
 
 func (c *c17) viol(rule, site, format string, a ...any) {
 	c.o.Violate("C17", rule, site, c.step, format, a...)
@@ -71,7 +76,7 @@ func findCookie(h http.Header, name string) *http.Cookie {
 
 func (c *c17) start(ch *kernel.Chooser) string {
 	b := c.browsers[ch.Int(len(c.browsers))]
-	r := b.Get("https://web.sim/login")
+	r := b.Get("https://" + c.host() + "/login")
 	return c.afterLogin(ch, b, r)
 }
 
@@ -89,7 +94,7 @@ func (c *c17) concurrentStart(ch *kernel.Chooser) string {
 			if sched.Park(name, "start", nil) != "go" {
 				return
 			}
-			resps[i] = c.browsers[i].Get("https://web.sim/login")
+			resps[i] = c.browsers[i].Get("https://" + c.host() + "/login")
 		}()
 	}
 	if err := sched.Run(func(bool) []kernel.Event {
@@ -160,10 +165,11 @@ func (c *c17) afterLogin(ch *kernel.Chooser, b *world.Browser, r *world.Resp) st
 	lu, _ := url.Parse(ar.Location)
 	user := ch.Pick("alice", "bob")
 	cb := w.LoginAndCallback(b, lu.Query().Get("authRequestID"), user, userPass[user])
-	if cb.Status != http.StatusFound || !strings.HasPrefix(cb.Location, "https://web.sim/callback") {
+	if cb.Status != http.StatusFound || !strings.HasPrefix(cb.Location, "https://"+c.host()+"/callback") {
 		return fmt.Sprintf("start #%d in %s: no callback (%d)", a.n, b.Name, cb.Status)
 	}
 	a.callback = cb.Location
+	a.subject = userID[user]
 	c.attempts = append(c.attempts, a)
 	c.o.Probe("attempt-started")
 	return fmt.Sprintf("start #%d in %s state=%s pkce=%v -> callback ready", a.n, b.Name, a.state, a.verifier != "")
@@ -301,7 +307,7 @@ func (c *c17) deliver(ch *kernel.Chooser) string {
 	// what did the RP send to the provider while handling this callback?
 	var tokenReqs []*world.Exchange
 	for _, ex := range w.Net.Since(before) {
-		if ex.From == "rp:web" && ex.Host == "op.sim" {
+		if ex.From == "rp:"+c.client && ex.Host == "op.sim" {
 			if ex.Path == "/oauth/token" {
 				tokenReqs = append(tokenReqs, ex)
 			}
@@ -357,6 +363,101 @@ func (c *c17) deliver(ch *kernel.Chooser) string {
 	return desc
 }
 
+// concurrentDeliver: the honest callbacks of two attempts (one per browser) arrive at the same time; the scheduler
+// interleaves the two handler invocations at the point where the handler evaluates its exchange options (after it
+// read its cookies, before it sends the code). Each code must travel with the verifier of its own browser's
+// cookie, and each application callback must get the state and the user of its own attempt.
+func (c *c17) concurrentDeliver(ch *kernel.Chooser) string {
+	w := c.w
+	var pair []*attempt
+	for _, b := range c.browsers {
+		for _, a := range c.attempts {
+			if a.browser == b && a.delivered == 0 && c.latestInBrowser(a) && (c.maxAge == 0 || time.Since(a.startedAt) < time.Duration(c.maxAge-2)*time.Second) {
+				pair = append(pair, a)
+				break
+			}
+		}
+	}
+	if len(pair) < 2 {
+		return c.start(ch)
+	}
+	sched := kernel.NewSched(c.w.Tape, fmt.Sprintf("pair:%d", c.step), 100)
+	c.rp.ParamHook = func() { sched.Park(sched.Current, "rp.exchangeparam", nil) }
+	defer func() { c.rp.ParamHook = nil }()
+	cbBefore, _, _ := c.rp.Snapshot()
+	before := w.Net.Len()
+	resps := make([]*world.Resp, 2)
+	for i := 0; i < 2; i++ {
+		i := i
+		name := fmt.Sprintf("t%d", i)
+		go func() {
+			if sched.Park(name, "start", nil) != "go" {
+				return
+			}
+			resps[i] = pair[i].browser.Get(pair[i].callback)
+		}()
+	}
+	if err := sched.Run(func(bool) []kernel.Event {
+		var evs []kernel.Event
+		for _, p := range sched.ParkedTasks() {
+			p := p
+			evs = append(evs, kernel.Event{Name: "wake:" + p.Task + "@" + p.Point, Drain: true, Apply: func() { sched.Release(p.Task, "go") }})
+		}
+		return evs
+	}, nil); err != nil {
+		c.o.Infra = err.Error()
+	}
+	c.o.Probe("concurrent-callbacks")
+	c.o.Trace = append(c.o.Trace, strings.Join(sched.Trace, ","))
+	desc := fmt.Sprintf("concurrent honest callbacks #%d/%s and #%d/%s [%s]", pair[0].n, pair[0].browser.Name, pair[1].n, pair[1].browser.Name, strings.Join(sched.Trace, " "))
+	cbAfter, _, _ := c.rp.Snapshot()
+	for i, a := range pair {
+		a.delivered++
+		cu, _ := url.Parse(a.callback)
+		code := cu.Query().Get("code")
+		st := -1
+		if resps[i] != nil {
+			st = resps[i].Status
+		}
+		desc += fmt.Sprintf(" #%d->%d", a.n, st)
+		sent := 0
+		for _, ex := range w.Net.Since(before) {
+			if ex.From == "rp:"+c.client && ex.Host == "op.sim" && ex.Path == "/oauth/token" && ex.Form().Get("code") == code {
+				sent++
+				if v := ex.Form().Get("code_verifier"); c.rp.PKCE && v != a.verifier {
+					c.viol("pkce", "rp/callback-verifier/concurrent", "%s: the code of attempt #%d was sent with code_verifier %q, its own pkce cookie holds %q", desc, a.n, v, a.verifier)
+				}
+			}
+		}
+		if sent == 0 {
+			c.o.Probe("honest-login-failed")
+			continue
+		}
+		var mine []world.RPCallback
+		for _, cb := range cbAfter[len(cbBefore):] {
+			if cb.State == a.state {
+				mine = append(mine, cb)
+			}
+		}
+		if len(mine) == 1 {
+			c.o.Probe("honest-login-completed")
+			if mine[0].Subject != a.subject {
+				c.viol("state-binding", "rp/callback-app/concurrent", "%s: the application callback for state %q got the tokens of %q, attempt #%d was logged in by %q", desc, a.state, mine[0].Subject, a.n, a.subject)
+			}
+		} else if len(mine) > 1 {
+			c.viol("state-binding", "rp/callback-app/concurrent", "%s: %d application callbacks for state %q of one delivery", desc, len(mine), a.state)
+		} else {
+			c.o.Probe("honest-login-failed")
+		}
+	}
+	for _, cb := range cbAfter[len(cbBefore):] {
+		if cb.State != pair[0].state && cb.State != pair[1].state {
+			c.viol("state-binding", "rp/callback-app/concurrent", "%s: application callback with state %q that neither delivery carried", desc, cb.State)
+		}
+	}
+	return desc
+}
+
 // latestInBrowser: the attempt's cookies are still the ones in the jar (no later attempt overwrote them).
 func (c *c17) latestInBrowser(a *attempt) bool {
 	for _, o := range c.attempts {
@@ -384,8 +485,21 @@ func RunC17(t *testing.T, spec kernel.Spec) *kernel.Outcome {
 		if !w.Conf.AuthMethodPost && style == oauth2.AuthStyleInParams {
 			style = oauth2.AuthStyleInHeader
 		}
+		c.client = "web"
+		secret := "secret-web"
+		var signer jose.Signer
+		if w.Conf.AuthMethodPrivateKeyJWT && cfg.Bool(1, 4) {
+			// JWT-profile client authentication: the RP signs an assertion with the key registered for client jwt
+			c.client, secret = "jwt", ""
+			k := w.ClientKeys["jwt"]
+			signer, err = jose.NewSigner(jose.SigningKey{Algorithm: jose.RS256, Key: k}, (&jose.SignerOptions{}).WithType("JWT"))
+			if err != nil {
+				o.Infra = "signer: " + err.Error()
+				return
+			}
+		}
 		mk := func(seed byte) (*world.RPNode, error) {
-			return world.BuildRP(context.Background(), w, world.RPOptions{Client: "web", Secret: "secret-web", Host: "web.sim", Redirect: "https://web.sim/callback",
+			return world.BuildRP(context.Background(), w, world.RPOptions{Client: c.client, Secret: secret, Host: c.host(), Redirect: "https://" + c.host() + "/callback", Signer: signer,
 				Scopes: []string{oidc.ScopeOpenID, oidc.ScopeEmail}, PKCE: pkce, Cookies: true, KeySeed: seed, AuthStyle: style, SigAlgs: []string{string(w.SigAlg)}, MaxAge: c.maxAge})
 		}
 		c.other, err = mk(77)
@@ -400,9 +514,11 @@ func RunC17(t *testing.T, spec kernel.Spec) *kernel.Outcome {
 		n := 30 + tape.Sub("cfg").Int(40)
 		steps(o, tape, n, func(i int, ch *kernel.Chooser) string {
 			c.step = i
-			switch x := ch.Int(11); {
+			switch x := ch.Int(12); {
 			case x == 10:
 				return c.concurrentStart(ch)
+			case x == 11:
+				return c.concurrentDeliver(ch)
 			case x < 4 || i < 2:
 				return c.start(ch)
 			case x < 9:
@@ -418,8 +534,11 @@ func RunC17(t *testing.T, spec kernel.Spec) *kernel.Outcome {
 				return fmt.Sprintf("advance %v", d)
 			}
 		})
-		o.Log = append([]string{fmt.Sprintf("config: router=%s pkce=%v cookieMaxAge=%d authStyle=%v", w.Router, pkce, c.maxAge, style)}, o.Log...)
-		o.Sample = map[string]any{"seed": spec.Seed, "router": w.Router, "pkce": pkce, "steps": o.Trace}
+		o.Log = append([]string{fmt.Sprintf("config: router=%s client=%s pkce=%v cookieMaxAge=%d authStyle=%v", w.Router, c.client, pkce, c.maxAge, style)}, o.Log...)
+		o.Sample = map[string]any{"seed": spec.Seed, "router": w.Router, "pkce": pkce, "client": c.client, "steps": o.Trace}
+		if c.client == "jwt" {
+			o.ProbeN("jwt-profile-rp-login-completed", o.Probes["honest-login-completed"])
+		}
 	})
 	o.Nontrivial = o.Probes["code-sent-to-provider"] > 0 && o.Probes["callback-refused"] > 0
 	return o
